@@ -404,7 +404,10 @@ func (fr *frame) applyContract(con *Contract, key string, args []SV, cur *State,
 			noPanic = append(noPanic, not(phi))
 		}
 	}
-	if con.MayPanic && !vc.lenient() {
+	if vc.lenient() && vc.con != nil && (vc.con.PanicsDeclared || len(vc.con.PanicsKeep) > 0) && !con.Extern && !con.Assumed && !con.PanicsDeclared && !con.Lemma && pathMode(con.Pkg) != HeapMode {
+		vc.assumes["callee assumed not to panic explicitly (its contract is not yet audited with panics_declared): "+key] = true
+	}
+	if con.MayPanic && (!vc.lenient() || (vc.con != nil && (len(vc.con.PanicsKeep) > 0 || vc.con.PanicsDeclared))) {
 		vc.panics = append(vc.panics, panicSite{guard: fr.g, val: SV{t: "0", srt: "exc:"}, st: pre, what: "callee " + key + " may panic", nf: len(vc.facts)})
 	}
 	if len(noPanic) > 0 {
